@@ -9,6 +9,7 @@ import GqlProofs.ExecLog
 import GqlProofs.ExecState
 import GqlProofs.ExecWorlds
 import GqlProofs.ExecPair
+import GqlProofs.ExecPairFinal
 /-! # C04 — Responses are well-formed for schema and query whatever resolvers return
 
 Property theorems only. The theorems are about `GqlModel.Exec.execute` (the execution algorithm as this library
@@ -421,6 +422,115 @@ theorem sibling_unaffected_two_worlds (s : Schema) (doc : Document) (opName : St
     · cases hnone
   · cases hnone
 
+/-- The same with `q` pinned down: THE NULLED ANCESTOR. Along the way to `p` at most one position holds `null` in either
+response, and `q` is that position — every prefix of `p` that holds `null` in either response equals `q`, so `q` is the
+longest (and the only) such prefix; `q = p` when there is none (the differing field failed in neither world, or was not
+nulled). When the field at `p` failed in one world, `q` is the position its null moved to (its nearest nullable
+ancestor, or `p` itself when `p` is nullable). Outside `q` the data trees, the error lists and the invocation logs of the
+two responses coincide. (`MixP`/`mixP` in `GqlProofs/ExecMix*.lean` — second paired induction — and
+`GqlProofs/ExecPairFinal.lean`.) -/
+theorem sibling_unaffected_outside_nulled_ancestor (s : Schema) (doc : Document) (opName : String) (inputs : Vars)
+    (w1 w2 : World) (id0 : Nat) (f0 : String) (ha : AgreeExcept w1 w2 id0 f0) (fuel : Nat)
+    (d1 d2 : List (String × JVal)) (e1 e2 : List (Path × Bool)) (log1 log2 : List LogEntry) (kf1 kf2 : List Path)
+    (h1 : execute s doc opName inputs w1 fuel = .result (some d1) e1 log1 kf1)
+    (h2 : execute s doc opName inputs w2 fuel = .result (some d2) e2 log2 kf2)
+    (p : Path) (hp : ∀ e, e ∈ log1 → Touches id0 f0 e → e.path = p) :
+    ∃ q, q <+: p ∧
+      (∀ r, r <+: p → NullIn (.obj d1) (.obj d2) r → r = q) ∧
+      (q = p ∨ NullIn (.obj d1) (.obj d2) q) ∧
+      (∀ r, ¬ q <+: r → ¬ r <+: q → (JVal.obj d1).getAt r = (JVal.obj d2).getAt r) ∧
+      errsOutside q e1 = errsOutside q e2 ∧ logOutside q log1 = logOutside q log2 := by
+  obtain ⟨qm, hqm, hnull, hval, herr, hlog⟩ :=
+    sibling_unaffected_two_worlds s doc opName inputs w1 w2 id0 f0 ha fuel d1 d2 e1 e2 log1 log2 kf1 kf2 h1 h2 p hp
+  -- the second invariant at the root
+  have hm : MaxOK p (.obj d1) (.obj d2) := by
+    obtain ⟨c, root, sel, r1, st1, hc1, hr1, -, hlog1, -, hd1⟩ := execute_result h1
+    obtain ⟨c2, root2, sel2, r2, st2, hc2, hr2, -, -, -, hd2⟩ := execute_result h2
+    obtain ⟨hc2', hw⟩ := requestCtx_world hc1 w2
+    rw [hc2'] at hc2
+    simp only [Option.some.injEq, Prod.mk.injEq] at hc2
+    obtain ⟨rfl, rfl, rfl⟩ := hc2
+    subst hw
+    rw [rootGroups_world] at hr2
+    rcases hd1 with ⟨fs1, rfl, hfs1⟩ | ⟨-, hnone⟩
+    · rcases hd2 with ⟨fs2, rfl, hfs2⟩ | ⟨-, hnone⟩
+      · cases hfs1; cases hfs2
+        have hnd : (rootGroups c root sel).keys.Nodup := collect_keys_nodup c root sel ([], []) List.nodup_nil
+        have ht : TouchAt id0 f0 ([] ++ p) st1.log := by
+          intro e he h
+          exact hp e (by rw [hlog1, List.mem_reverse]; exact he) h
+        exact ((mixP ha fuel).groups _ _ _ _ _ p _ _ _ _ hnd hr1 hr2 ht).okok _ _ rfl rfl
+      · cases hnone
+    · cases hnone
+  exact canonical_of_good hm hqm hnull hval herr hlog
+
+/-- …and without the premise that both responses have data (`dataTree`: an absent `data` is the tree `null`, nulled at
+the root): whenever the two executions return responses at all, the nulled ancestor `q` exists, is unique, and the two
+responses coincide outside it. When `data` is absent in one response, `q` is the root: the other response then holds no
+`null` anywhere on the way to `p` (the failure that removed `data` in one world is the one at/below `p`). -/
+theorem sibling_unaffected_outside_nulled_ancestor_total (s : Schema) (doc : Document) (opName : String) (inputs : Vars)
+    (w1 w2 : World) (id0 : Nat) (f0 : String) (ha : AgreeExcept w1 w2 id0 f0) (fuel : Nat)
+    (data1 data2 : Option (List (String × JVal))) (e1 e2 : List (Path × Bool)) (log1 log2 : List LogEntry)
+    (kf1 kf2 : List Path)
+    (h1 : execute s doc opName inputs w1 fuel = .result data1 e1 log1 kf1)
+    (h2 : execute s doc opName inputs w2 fuel = .result data2 e2 log2 kf2)
+    (p : Path) (hp : ∀ e, e ∈ log1 → Touches id0 f0 e → e.path = p) :
+    ∃ q, q <+: p ∧
+      (∀ r, r <+: p → NullIn (dataTree data1) (dataTree data2) r → r = q) ∧
+      (q = p ∨ NullIn (dataTree data1) (dataTree data2) q) ∧
+      (∀ r, ¬ q <+: r → ¬ r <+: q → (dataTree data1).getAt r = (dataTree data2).getAt r) ∧
+      errsOutside q e1 = errsOutside q e2 ∧ logOutside q log1 = logOutside q log2 := by
+  -- the second invariant at the root, for whatever the two root selection sets returned
+  obtain ⟨c, root, sel, r1, st1, hc1, hr1, -, hlog1, -, hd1⟩ := execute_result h1
+  obtain ⟨c2, root2, sel2, r2, st2, hc2, hr2, -, -, -, hd2⟩ := execute_result h2
+  obtain ⟨hc2', hw⟩ := requestCtx_world hc1 w2
+  rw [hc2'] at hc2
+  simp only [Option.some.injEq, Prod.mk.injEq] at hc2
+  obtain ⟨rfl, rfl, rfl⟩ := hc2
+  subst hw
+  rw [rootGroups_world] at hr2
+  have hnd : (rootGroups c root sel).keys.Nodup := collect_keys_nodup c root sel ([], []) List.nodup_nil
+  have ht : TouchAt id0 f0 ([] ++ p) st1.log := by
+    intro e he h
+    exact hp e (by rw [hlog1, List.mem_reverse]; exact he) h
+  have hmix := (mixP ha fuel).groups _ _ _ _ _ p _ _ _ _ hnd hr1 hr2 ht
+  -- the root is the nulled ancestor as soon as one `data` is absent
+  have hroot : ∀ (D1 D2 : JVal), (D1 = .null ∨ D2 = .null) →
+      (∀ r, r <+: p → NullIn D1 D2 r → r = []) →
+      ∃ q, q <+: p ∧ (∀ r, r <+: p → NullIn D1 D2 r → r = q) ∧ (q = p ∨ NullIn D1 D2 q) ∧
+        (∀ r, ¬ q <+: r → ¬ r <+: q → D1.getAt r = D2.getAt r) ∧
+        errsOutside q e1 = errsOutside q e2 ∧ logOutside q log1 = logOutside q log2 := by
+    intro D1 D2 hnull huniq
+    refine ⟨[], List.nil_prefix, huniq, Or.inr ?_, fun r h _ => absurd List.nil_prefix h, ?_, ?_⟩
+    · rcases hnull with h | h
+      · exact Or.inl (by rw [h]; rfl)
+      · exact Or.inr (by rw [h]; rfl)
+    · simp [errsOutside, List.isPrefixOf, List.filter_eq_nil_iff.mpr]
+    · simp [logOutside, List.isPrefixOf, List.filter_eq_nil_iff.mpr]
+  have hnullAt : ∀ r : Path, JVal.getAt .null r = some .null → r = [] := by
+    intro r h
+    cases r with
+    | nil => rfl
+    | cons s t => rw [getAt_null_cons] at h; cases h
+  rcases hd1 with ⟨fs1, rfl, rfl⟩ | ⟨rfl, rfl⟩
+  · rcases hd2 with ⟨fs2, rfl, rfl⟩ | ⟨rfl, rfl⟩
+    · exact sibling_unaffected_outside_nulled_ancestor s doc opName inputs _ w2 id0 f0 ha fuel fs1 fs2 e1 e2 log1 log2
+        kf1 kf2 h1 h2 p hp
+    · refine hroot _ _ (Or.inr rfl) ?_
+      intro r hr hn
+      rcases hn with hn | hn
+      · exact absurd hn (hmix.okfail _ rfl rfl r hr)
+      · exact hnullAt r hn
+  · rcases hd2 with ⟨fs2, rfl, rfl⟩ | ⟨rfl, rfl⟩
+    · refine hroot _ _ (Or.inl rfl) ?_
+      intro r hr hn
+      rcases hn with hn | hn
+      · exact hnullAt r hn
+      · exact absurd hn (hmix.failok _ rfl rfl r hr)
+    · refine hroot _ _ (Or.inl rfl) ?_
+      intro r hr hn
+      rcases hn with hn | hn <;> exact hnullAt r hn
+
 /-! ## Non-vacuity: a concrete request (GqlProofs/ExecExample.lean) -/
 
 open Ex in
@@ -497,5 +607,70 @@ example : (let r1 := obsData (execute schema doc "Q" varsF world 50)
               r2.map (fun d => (d.filter (fun kv => kv.1 != "w")).map (fun kv => (kv.1, fmtV kv.2))),
             r1.map (fun d => (JVal.lookup d "w").map fmtV), r2.map (fun d => (JVal.lookup d "w").map fmtV)))
     = (true, some (some "<nil>"), some (some "map[x:ok]")) := by decide +kernel
+
+/-! ### non-vacuity of `sibling_unaffected_two_worlds`: `p = items[1].a` (depth 3, inside a list), nulled ancestor
+`q = items[1]` strictly above `p` -/
+
+/-- the two worlds agree except on `(object 2, field a)` -/
+example : AgreeExcept Ex.worldTW1 Ex.worldTW2 2 "a" := by
+  refine ⟨fun t v => ?_, fun t v => ?_, fun src f h => ?_⟩
+  · cases v <;> try rfl
+    rename_i id
+    simp only [World.isTypeOfAns, World.obj?, Ex.worldTW1, Ex.worldTW2, List.find?_nil]
+    by_cases h1 : id = 1
+    · subst h1; rfl
+    · by_cases h2 : id = 2
+      · subst h2; rfl
+      · have e1 : ((1 : Nat) == id) = false := by simpa using fun h => h1 h.symm
+        have e2 : ((2 : Nat) == id) = false := by simpa using fun h => h2 h.symm
+        simp [List.find?, e1, e2]
+  · cases v <;> try rfl
+    rename_i id
+    simp only [World.resolveTypeAns, World.obj?, Ex.worldTW1, Ex.worldTW2, List.find?_nil]
+    by_cases h1 : id = 1
+    · subst h1; rfl
+    · by_cases h2 : id = 2
+      · subst h2; rfl
+      · have e1 : ((1 : Nat) == id) = false := by simpa using fun h => h1 h.symm
+        have e2 : ((2 : Nat) == id) = false := by simpa using fun h => h2 h.symm
+        simp [List.find?, e1, e2]
+  · cases src <;> try rfl
+    rename_i id
+    simp only [World.outcome, World.obj?, Ex.worldTW1, Ex.worldTW2]
+    by_cases h1 : id = 1
+    · subst h1; rfl
+    · by_cases h2 : id = 2
+      · subst h2
+        have hf : f ≠ "a" := fun hf => h ⟨rfl, hf⟩
+        have : ("a" == f) = false := by simpa using fun h => hf h.symm
+        simp [List.find?, this]
+      · have e1 : ((1 : Nat) == id) = false := by simpa using fun h => h1 h.symm
+        have e2 : ((2 : Nat) == id) = false := by simpa using fun h => h2 h.symm
+        simp [List.find?, e1, e2]
+
+open Ex in
+/-- both responses have data; the first execution invokes `(2, a)` exactly once, at `p = items[1].a`; the first response
+holds `null` at `q = items[1]` (the non-null `a` failed, the null moved to the list item), the second an object -/
+example : (obsData (execute schemaTW docTW "" [] worldTW1 50)).isSome = true
+    ∧ (obsData (execute schemaTW docTW "" [] worldTW2 50)).isSome = true
+    ∧ touchPaths 2 "a" (execute schemaTW docTW "" [] worldTW1 50) = [pathStr pTW]
+    ∧ showAt (obsData (execute schemaTW docTW "" [] worldTW1 50)) qTW = some "<nil>"
+    ∧ showAt (obsData (execute schemaTW docTW "" [] worldTW2 50)) qTW = some "map[a:7 b:3]"
+    ∧ obsErrs (execute schemaTW docTW "" [] worldTW1 50) = ["items.1.a"]
+    ∧ obsErrs (execute schemaTW docTW "" [] worldTW2 50) = [] := by
+  decide +kernel
+
+open Ex in
+/-- …and, as the theorem says, outside `q` the two responses coincide: same values at `items[0]`, `items[0].b`, `z`
+(and nothing at `items[2]` in both), same errors and same invocations outside `items[1]` -/
+example : [[.key "items", .idx 0], [.key "items", .idx 0, .key "b"], [.key "z"], [.key "items", .idx 2]].map
+             (fun r => (showAt (obsData (execute schemaTW docTW "" [] worldTW1 50)) r,
+                        showAt (obsData (execute schemaTW docTW "" [] worldTW2 50)) r))
+      = [(some "map[a:1 b:2]", some "map[a:1 b:2]"), (some "2", some "2"), (some "5", some "5"), (none, none)]
+    ∧ errsOutsideS qTW (execute schemaTW docTW "" [] worldTW1 50) = []
+    ∧ errsOutsideS qTW (execute schemaTW docTW "" [] worldTW2 50) = []
+    ∧ logOutsideS qTW (execute schemaTW docTW "" [] worldTW1 50) = ["items", "items.0.a", "items.0.b", "z"]
+    ∧ logOutsideS qTW (execute schemaTW docTW "" [] worldTW2 50) = ["items", "items.0.a", "items.0.b", "z"] := by
+  decide +kernel
 
 end GqlModel.Exec
